@@ -3,6 +3,7 @@
 from __future__ import annotations
 
 import ast
+import re
 from dataclasses import dataclass
 from typing import Any, Dict, List, Optional, Tuple
 
@@ -137,6 +138,26 @@ def check_section(repo: Repo, rep, P: str, sec: Section, spec_chunks: Dict[str, 
             continue
         if p.shape == "cstring" and r.shape == "custom" and r.cstring_head:
             rep.ok(f"{P}.R1", rcon, f"{w.cid}: cstring ↔ custom handler starting with the cstring idiom", "compatible payload shapes")
+            continue
+        if p.shape in ("cstring", "fixedstring", "text") and r.shape == "custom":
+            # a recognised wrong cut: data[:data.find(NUL)] with no test that a NUL is there — find() gives -1 for a payload without a
+            # terminator and the slice drops its last byte
+            bad_cut = None
+            for stxt in r.stmts:
+                m_ = re.search(r"\b(\w+)\[:\s*\1\.(?:find|rfind)\(([^)]*)\)\]", stxt)
+                if m_ and not re.search(rf"\bif\b.*\bin {re.escape(m_.group(1))}\b", stxt):
+                    bad_cut = stxt
+            if bad_cut is not None:
+                rep.violation(f"{P}.R1", rcon, bad_cut[:160],
+                              f"{w.cid}: the text is cut at data.find(NUL) without checking that a NUL is present: for a payload without a "
+                              "terminator find() is -1 and the last character is lost (the writer's own NUL-less edge cases, files of other writers)",
+                              r.where)
+                continue
+        if r.shape not in compat and (p.shape == "call" or r.shape == "custom"):
+            # one side is not of a recognised shape (a helper call on the writer side, a free-form handler on the reader side):
+            # nothing definite is known about the pair
+            rep.inconclusive(f"{P}.R1", rcon, "; ".join(r.stmts)[:160],
+                             f"{w.cid}: writer payload is {p.shape} ({p.text[:60]}), reader handler is {r.shape}: pair not recognised", r.where)
             continue
         if r.shape not in compat:
             rep.violation(f"{P}.R1", rcon, "; ".join(r.stmts)[:160],
